@@ -582,6 +582,9 @@ def _node_preconditions(model, cname):
                 k, op = n.comparators[0].value, type(n.ops[0])
                 if (op in (ast.Eq,) and k >= 0) or (op is ast.GtE and k >= 2) or (op is ast.Gt and k >= 1):
                     pre.setdefault(src(n.left.value)[5:], {})['ndim'] = (op.__name__, k)
+            if isinstance(n, ast.Compare) and len(n.ops) == 1 and isinstance(n.ops[0], ast.In) and isinstance(n.left, ast.Attribute) and n.left.attr == 'dtype' and src(n.left.value).startswith('self.') \
+                    and isinstance(n.comparators[0], (ast.Tuple, ast.List, ast.Set)):
+                pre.setdefault(src(n.left.value)[5:], {})['dtype'] = tuple(src(e) for e in n.comparators[0].elts)
             if isinstance(n, ast.Call) and src(n.func) == '_certainly_different':
                 t = ' '.join(src(x) for x in n.args)
                 for fld in fields:
@@ -609,8 +612,11 @@ def check_wrapped_preconditions(model, rep):
                 tg = s_.targets if isinstance(s_, ast.Assign) else [s_.optional_vars] if isinstance(s_, ast.withitem) else [s_.target]
                 other |= {x.id for t in tg if t is not None for x in ast.walk(t) if isinstance(x, ast.Name)}
         direct = {}
+
+        def same_array(v, p_):   # Array.cast(p) and p.astype(kind) denote the caller's operand with the same shape
+            return isinstance(v, ast.Call) and ((src(v.func) == 'Array.cast' and [src(x) for x in v.args] == [p_]) or src(v.func) == f'{p_}.astype')
         for p_ in pos:
-            if p_ not in other and all(isinstance(v, ast.Call) and src(v.func) == 'Array.cast' and [src(x) for x in v.args] == [p_] for v in binds.get(p_, [])):
+            if p_ not in other and all(same_array(v, p_) for v in binds.get(p_, [])):
                 direct[p_] = p_
         for t, vs in binds.items():
             if t not in pos and t not in other and all(isinstance(v, ast.Call) and src(v.func) == 'Array.cast' and len(v.args) == 1 and src(v.args[0]) in direct and src(v.args[0]) in pos for v in vs):
@@ -634,6 +640,18 @@ def check_wrapped_preconditions(model, rep):
                         continue   # the operand was built by this implementation: its shape is this implementation's doing (not decided)
                     if 'ndim' in what and what['ndim'][0] == 'Eq' and not without_points:
                         continue   # lowering prepends point axes: an exact ndim is not a function-level fact
+                    if 'dtype' in what:
+                        kinds = what['dtype']
+                        reads = [g for g in ast.walk(fn) if isinstance(g, ast.If) and g.lineno < c.lineno and
+                                 any(isinstance(a, ast.Attribute) and a.attr == 'dtype' and isinstance(a.value, ast.Name) and direct.get(a.value.id) == direct[op.id] for a in ast.walk(g.test)) and
+                                 (any(isinstance(b, ast.Raise) for b in g.body) or any(isinstance(b, ast.Assign) and isinstance(b.value, ast.Call) and method_name(b.value) == 'astype' and src(b.value.args[0]) in kinds for b in g.body))]
+                        okd = bool(reads)
+                        rep.ob('R07.9', f'function:__implementations__.{fn.name}', f'{m.relpath}:{c.lineno}', okd,
+                               f'{names[0]}: evaluable.{cname} requires an element kind in ({", ".join(kinds)}) of `{op.id}`; the implementation converts or rejects other kinds first' if okd else
+                               f'{names[0]} hands the caller\'s operand `{op.id}` to evaluable.{cname}, which only asserts that its element kind is in ({", ".join(kinds)}): an integer or boolean operand, which NumPy accepts, '
+                               'is announced with a result kind but fails an internal assertion when it is lowered', statement=f'precondition-kind {cname}.{fld}@{fn.name}')
+                    if not ({'ndim', 'square'} & set(what)):
+                        continue
                     n += 1
                     need = {'ndim'} | ({'shape'} if what.get('square') else set())
                     guards = [g for g in ast.walk(fn) if isinstance(g, ast.If) and any(isinstance(b, ast.Raise) for b in g.body) and
